@@ -263,9 +263,133 @@ fn check_mate_range(p: &Pos, h: &crate::zobrist::ZobristHasher, acc: &mut Acc, s
     }
 }
 
+/// "Depends on nothing but placement and side to move", for boards that were not built by the
+/// FEN loader: along a game the same position is held by a board that came down the generator's
+/// own successor chain, by a board the text applier has been playing on since the start, and by
+/// a fresh load; all three must evaluate to the same number at every ply. Starts include surplus
+/// material (second and third queens on a nearly full board, pawns about to promote), so that
+/// anything the boards maintain incrementally is pushed beyond its ordinary range first.
+fn carrier_walk(start: &Pos, plies: usize, h: &crate::zobrist::ZobristHasher, rng: &mut Rng, acc: &mut Acc) {
+    use crate::move_generation::{generate_moves, MoveGenerationMode};
+    let mut cur = start.clone();
+    let (mut gen_b, mut txt_b) = match (engine_from_pos(start), engine_from_pos(start)) {
+        (Ok(a), Ok(b)) => (a, b),
+        _ => return,
+    };
+    let mut path: Vec<String> = Vec::new();
+    for ply in 0..plies {
+        let legal = legal_moves(&cur);
+        if legal.is_empty() {
+            break;
+        }
+        // captures and promotions are what changes material: prefer them
+        let policy = if rng.chance(2, 3) { crate::workload::Policy::Tactical } else { crate::workload::Policy::Mixed };
+        let m = crate::workload::choose_move(rng, &cur, &legal, policy);
+        let next = apply(&cur, m);
+        path.push(m.to_string());
+        let case = json!({"kind": "walk", "property": "C14", "start_fen": start.to_fen(), "moves": path});
+        // generator carrier
+        let gb = gen_b.clone();
+        let succ = match par::catch(|| generate_moves(&gb, MoveGenerationMode::AllMoves, h)) {
+            Ok(s) => s,
+            Err(e) => {
+                acc.violation(format!("C14|carrier-panic|{}", cur.to_fen()), format!("generation panicked on {}: {}", cur.to_fen(), e), case);
+                return;
+            }
+        };
+        let pick = succ.into_iter().find(|b| mv_of(b).ok() == Some(m));
+        let nb = match pick {
+            Some(b) => b,
+            None => return, // a generation fault: C01/C02 report it
+        };
+        // text carrier
+        let mut tb = txt_b.clone();
+        let text = m.to_string();
+        if par::catch(|| crate::uci::verif_make_move(&mut tb, &text, h)).is_err() {
+            return; // C04 reports it
+        }
+        if fields_of(&nb) != fields_of_pos(&next) || fields_of(&tb) != fields_of_pos(&next) {
+            return; // not the same position: a matter for C02 / C04
+        }
+        let fresh = match eval_of(&next) {
+            Ok((e, _)) => e,
+            Err(_) => return,
+        };
+        acc.evaluations += 1;
+        acc.count("carrier_plies", 1);
+        let phase_like: i32 = next.sq.iter().map(|x| match x { Some((_, Kind::Queen)) => 4, Some((_, Kind::Rook)) => 2, Some((_, Kind::Bishop)) | Some((_, Kind::Knight)) => 1, _ => 0 }).sum();
+        if phase_like > 24 {
+            acc.feature("carrier_board_with_surplus_material");
+        }
+        if is_capture(&cur, m) {
+            acc.feature("carrier_ply_is_a_capture");
+        }
+        if m.promo.is_some() {
+            acc.feature("carrier_ply_is_a_promotion");
+        }
+        acc.distinct.insert(hash64(&format!("carrier|{}|{}", start.to_fen(), ply)));
+        for (name, b) in [("generator's successor chain", &nb), ("text applier", &tb)] {
+            match par::catch(|| get_evaluation(b)) {
+                Ok(e) => {
+                    if e != fresh {
+                        acc.violation(
+                            format!("C14|carrier|{}|{}", name, next.to_fen()),
+                            format!("{} reached from {} by [{}]: the board carried by the {} evaluates to {}, the same placement and side to move loaded afresh to {}", next.to_fen(), start.to_fen(), path.join(" "), name, e, fresh),
+                            case.clone(),
+                        );
+                        return;
+                    }
+                }
+                Err(msg) => {
+                    acc.violation(format!("C14|carrier-panic|{}", next.to_fen()), format!("evaluating the {} board of {} panicked: {}", name, next.to_fen(), msg), case.clone());
+                    return;
+                }
+            }
+        }
+        gen_b = nb;
+        txt_b = tb;
+        cur = next;
+    }
+}
+
+/// Nearly full boards with surplus queens / rooks and pawns one step from promotion.
+fn surplus_start(rng: &mut Rng) -> Option<Pos> {
+    let mut p = Pos::start();
+    p.castle = [false; 4];
+    // replace some pawns / minor pieces by queens and rooks, push some pawns to the seventh
+    for _ in 0..(1 + rng.below(5)) {
+        let c = if rng.chance(1, 2) { Color::White } else { Color::Black };
+        let own: Vec<usize> = (0..64).filter(|s| matches!(p.sq[*s], Some((cc, k)) if cc == c && k != Kind::King)).collect();
+        if own.is_empty() {
+            continue;
+        }
+        let s = own[rng.below(own.len() as u64) as usize];
+        p.sq[s] = Some((c, *rng.pick(&[Kind::Queen, Kind::Queen, Kind::Rook])));
+    }
+    for _ in 0..rng.below(3) {
+        let c = if rng.chance(1, 2) { Color::White } else { Color::Black };
+        let f = rng.below(8) as usize;
+        let (from_rank, to_rank, back) = if c == Color::White { (1usize, 6usize, 7usize) } else { (6, 1, 0) };
+        if matches!(p.sq[from_rank * 8 + f], Some((cc, Kind::Pawn)) if cc == c) {
+            p.sq[from_rank * 8 + f] = None;
+            p.sq[to_rank * 8 + f] = Some((c, Kind::Pawn));
+            // make room on the promotion square or next to it now and then
+            if rng.chance(1, 2) && !matches!(p.sq[back * 8 + f], Some((_, Kind::King))) {
+                p.sq[back * 8 + f] = None;
+            }
+        }
+    }
+    p.stm = if rng.chance(1, 2) { Color::White } else { Color::Black };
+    if is_legal_position(&p) && !legal_moves(&p).is_empty() {
+        Some(p)
+    } else {
+        None
+    }
+}
+
 pub fn run(tier: Tier, seed: u64) -> i32 {
     let mut run = Run::new("C14", tier, seed, "exploration");
-    run.rule = "evaluation = one placement for which eval is compared with (a) the eval of its colour-mirrored twin, (b) the negated eval with the other side to move, (c) the eval after scrambling every non-placement field (the key is set to that of a different, just evaluated position) and after handing the move over on a clone the way the null move does (key unchanged), and the eval of the original board again afterwards, (d) the bound 50 000; plus (e) the real search at depths 1-2 on legal extreme-material roots (5-9 queens + rooks/minors against a nearly bare king, with and without a forced mate) compared with the exact reference value: a material value must be reported as cp, a forced mate as mate. Workload: exhaustive single-piece basis (12 pieces x 64 squares x phases 0..26 by symmetric filler x both sides to move), random placements with up to nine queens a side (legal or not), positions from the start library. Non-trivial = at least one piece and a non-zero evaluation; distinct by FEN".into();
+    run.rule = "evaluation = one placement for which eval is compared with (a) the eval of its colour-mirrored twin, (b) the negated eval with the other side to move, (c) the eval after scrambling every non-placement field (the key is set to that of a different, just evaluated position) and after handing the move over on a clone the way the null move does (key unchanged), and the eval of the original board again afterwards, (d) the bound 50 000; (f) along game walks (library starts and nearly full boards with surplus queens and pawns about to promote, captures and promotions preferred) the board that came down the generator's own successor chain and the board the text applier has been playing on must evaluate like a fresh load of the same position at every ply; plus (e) the real search at depths 1-2 on legal extreme-material roots (5-9 queens + rooks/minors against a nearly bare king, with and without a forced mate) compared with the exact reference value: a material value must be reported as cp, a forced mate as mate. Workload: exhaustive single-piece basis (12 pieces x 64 squares x phases 0..26 by symmetric filler x both sides to move), random placements with up to nine queens a side (legal or not), positions from the start library. Non-trivial = at least one piece and a non-zero evaluation; distinct by FEN".into();
     run.assumptions = vec![
         "metamorphic oracle only: the tables themselves are not compared with an external copy of PeSTO".into(),
         "bound 50 000 = half the mate score; largest material constructible with nine queens a side evaluates near 1.4*10^4".into(),
@@ -351,6 +475,28 @@ pub fn run(tier: Tier, seed: u64) -> i32 {
     });
     for a in results {
         run.acc.merge(a, &["max_abs_eval", "max_abs_search_value_non_mate"]);
+    }
+    // boards that were not built by the FEN loader
+    let cw_jobs = tier.pick(192usize, 3000);
+    let lib = crate::workload::start_positions(seed, 30).unwrap_or_default();
+    let results = par::par_map(cw_jobs, |j| {
+        let mut acc = Acc::new();
+        let mut rng = Rng::stream(seed, 0xC14_8000 + j as u64);
+        for _ in 0..6 {
+            let start = if rng.chance(1, 2) || lib.is_empty() {
+                match surplus_start(&mut rng) {
+                    Some(p) => p,
+                    None => continue,
+                }
+            } else {
+                lib[rng.below(lib.len() as u64) as usize].clone()
+            };
+            carrier_walk(&start, 20 + rng.below(60) as usize, &h, &mut rng, &mut acc);
+        }
+        acc
+    });
+    for a in results {
+        run.acc.merge(a, &["max_abs_eval"]);
     }
     run.set("exhaustive_families", json!(["single piece: 12 pieces x 64 squares x 14 filler levels (phase 0,2,..,26) x 2 sides to move"]));
     run.floor_distinct = 1000;
